@@ -78,6 +78,21 @@ def o_mapping(inp):
                 if len(cand) != 1 or cand[0].value != v:
                     return ((f"setitem-stored", f"step {step} {op!r}: {entry.fields!r}", f"one field {k!r} = {v!r}"), True, sorted(cls))
                 model[k] = cand[0]
+        elif name in ("pop_default_own", "get_default_own"):
+            # the default handed in is one of the entry's own Field objects (`e.pop(k, e.get(k2))`): for a dict the
+            # default is an opaque value - returned if the key is missing, and nothing else happens
+            k, k2 = op[1], op[2]
+            dflt = model.get(k2)
+            cls.add("default-is-own-field")
+            if name == "pop_default_own":
+                exp = model.pop(k, missing)
+                got = entry.pop(k, dflt)
+            else:
+                exp = model.get(k, missing)
+                got = entry.get(k, dflt)
+            exp_ret = dflt if exp is missing else exp
+            if got is not exp_ret:
+                return ((f"return:{name}", f"step {step} {op!r} returned {got!r}", repr(exp_ret)), True, sorted(cls))
         elif name in ("pop", "pop_default"):
             k = op[1]
             exp = model.pop(k, missing)
@@ -324,6 +339,8 @@ def small_ops(keys):
         ops += [["set_field", k, "v"], ["setitem", k, "w"], ["pop", k], ["del", k], ["get", k], ["getitem", k], ["contains", k]]
     ops.append(["pop_default", keys[0], "dflt"])
     ops.append(["get_default", keys[1], 7])
+    ops.append(["pop_default_own", keys[0], keys[1]])
+    ops.append(["get_default_own", keys[2], keys[0]])
     ops.append(["rename", keys[0], "zz"])
     ops.append(["rename", keys[1], keys[2]])
     ops.append(["reserved", "ENTRYTYPE"])
@@ -348,6 +365,7 @@ def strategies():
         st.tuples(st.just("setitem"), key, val).map(list),
         st.tuples(st.just("pop"), key).map(list),
         st.tuples(st.just("pop_default"), key, st.sampled_from(["d", None, 0])).map(list),
+        st.tuples(st.sampled_from(["pop_default_own", "get_default_own"]), key, key).map(list),
         st.tuples(st.just("del"), key).map(list),
         st.tuples(st.just("get"), key).map(list),
         st.tuples(st.just("get_default"), key, st.sampled_from(["d", None, 0])).map(list),
@@ -425,6 +443,10 @@ def w_machine(acc, n, seed):
         @rule(k=key)
         def pop(self, k):
             self.inp["ops"].append(["pop", k])
+
+        @rule(k=key, k2=key)
+        def pop_with_own_field_as_default(self, k, k2):
+            self.inp["ops"].append(["pop_default_own", k, k2])
 
         @rule(k=key)
         def delete(self, k):
